@@ -1808,5 +1808,272 @@ def exPerson : Person :=
 
 theorem exPerson_eq : mkPerson exName [] [] [] [] [] = .ok (exPerson, false) := by decide +kernel
 
+theorem formatName_spec_ok {name fmt s : Str} {rep : Bool} (h : formatName name fmt = .ok (s, rep)) :
+    Spec.formatName name fmt = .ok s := by
+  have := formatName_spec name fmt
+  rw [h] at this
+  exact this
+
+theorem formatName_spec_illegal {name fmt : Str} (h : formatName name fmt = .error .illegalLetters) :
+    Spec.formatName name fmt = .malformed := by
+  have := formatName_spec name fmt
+  rw [h] at this
+  exact this
+
+/-! ### the generative reading of the grammar -/
+
+theorem group_okText (d : Nat) (g r : Str) (h : okText false d g = true) :
+    group d (g ++ r) = (group 0 r).map fun p => (g ++ p.1, p.2) := by
+  induction g generalizing d with
+  | nil =>
+    have : d = 0 := by simpa [okText] using h
+    subst this
+    cases hg : group 0 r <;> simp [hg]
+  | cons c g ih =>
+    simp only [okText] at h
+    simp only [List.cons_append, group]
+    by_cases ho : c = '{'
+    · subst ho
+      simp only [if_true] at h
+      simp only [show ('{' : Char) ≠ '}' by decide, if_false, if_true, ih _ h]
+      cases group 0 r <;> simp
+    · simp only [ho, if_false] at h ⊢
+      by_cases hc : c = '}'
+      · subst hc
+        simp only [if_true, Bool.and_eq_true, decide_eq_true_eq] at h ⊢
+        cases d with
+        | zero => exact absurd rfl h.1
+        | succ d' =>
+          simp only [Nat.add_sub_cancel] at h
+          simp only [ih _ h.2]
+          cases group 0 r <;> simp
+      · simp only [hc, if_false] at h ⊢
+        have h' : okText false d g = true := by simpa using h
+        rw [ih _ h']
+        cases group 0 r <;> simp
+
+theorem verbatim_okText (d : Nat) (v r : Str) (h : okText true d v = true) :
+    verbatim d (v ++ r) = (v ++ (verbatim 0 r).1, (verbatim 0 r).2) := by
+  induction v generalizing d with
+  | nil =>
+    have : d = 0 := by simpa [okText] using h
+    subst this; simp
+  | cons c v ih =>
+    simp only [okText] at h
+    rw [List.cons_append]
+    cases d with
+    | zero =>
+      by_cases ho : c = '{'
+      · subst ho
+        simp only [if_true] at h
+        rw [verbatim_zero_open, ih _ h]
+        simp
+      · simp only [ho, if_false] at h
+        by_cases hc : c = '}'
+        · subst hc; simp at h
+        · simp only [hc, if_false, Bool.and_eq_true] at h
+          have hv : isVerbChar c = true := by simpa using h.1
+          have h' : okText true 0 v = true := by simpa using h.2
+          rw [verbatim_zero_verb _ hv, ih _ h']
+          simp
+    | succ d' =>
+      rw [verbatim_succ]
+      by_cases ho : c = '{'
+      · subst ho
+        simp only [if_true] at h ⊢
+        rw [ih _ h]; simp
+      · simp only [ho, if_false] at h ⊢
+        by_cases hc : c = '}'
+        · subst hc
+          simp only [if_true, Nat.add_sub_cancel, Bool.and_eq_true] at h ⊢
+          rw [ih _ h.2]; simp
+        · simp only [hc, if_false] at h ⊢
+          have h' : okText true (d' + 1) v = true := by simpa using h
+          rw [ih _ h']; simp
+
+theorem decodeLetters_text (l : Letters) : decodeLetters l.text = some l := by
+  obtain ⟨slot, full⟩ := l
+  cases slot <;> cases full <;> decide
+
+theorem letters_text_alpha (l : Letters) : ∀ c ∈ l.text, isAlpha c = true := by
+  obtain ⟨slot, full⟩ := l
+  cases slot <;> cases full <;> decide
+
+theorem letters_text_ne_nil (l : Letters) : l.text ≠ [] := by
+  obtain ⟨slot, full⟩ := l
+  cases slot <;> cases full <;> decide
+
+theorem takeWhile_append_stop {α} (p : α → Bool) (l t : List α) (hl : ∀ x ∈ l, p x = true)
+    (ht : ∀ a r, t = a :: r → p a = false) :
+    (l ++ t).takeWhile p = l ∧ (l ++ t).dropWhile p = t := by
+  induction l with
+  | nil =>
+    cases t with
+    | nil => simp
+    | cons a r => simp [ht a r rfl]
+  | cons x l ih =>
+    have hx := hl x (by simp)
+    have := ih (fun y hy => hl y (by simp [hy]))
+    simp [hx, this]
+
+/-- the first character of well-formed post-text is a verbatim character or `{` -/
+theorem okText_head {c : Char} {r : Str} (h : okText true 0 (c :: r) = true) :
+    c = '{' ∨ isVerbChar c = true := by
+  simp only [okText] at h
+  by_cases ho : c = '{'
+  · exact Or.inl ho
+  · simp only [ho, if_false] at h
+    by_cases hc : c = '}'
+    · subst hc; simp at h
+    · simp only [hc, if_false, Bool.and_eq_true] at h
+      exact Or.inr (by simpa using h.1)
+
+theorem verbChar_not_alpha {c : Char} (h : isVerbChar c = true) : isAlpha c = false := by
+  cases ha : isAlpha c
+  · rfl
+  · rw [isAlpha_not_verb ha] at h; cases h
+
+theorem verbatim_close (rest : Str) : verbatim 0 ('}' :: rest) = ([], '}' :: rest) :=
+  verbatim_zero_stop rest (by decide) (by decide)
+
+/-- reading back a rendered part without letters -/
+theorem parsePart_render_none (pre rest : Str) (hpre : okText true 0 pre = true) :
+    parsePart (pre ++ '}' :: rest) = some (⟨pre, none, none, []⟩, rest) := by
+  unfold parsePart
+  rw [verbatim_okText 0 pre _ hpre, verbatim_close]
+  simp
+
+/-- reading back a rendered part with letters -/
+theorem parsePart_render_some (pre : Str) (l : Letters) (sep : Option Str) (post rest : Str)
+    (hpre : okText true 0 pre = true) (hpost : okText true 0 post = true)
+    (hsep : match sep with | some s => okText false 0 s = true | none => post.head? ≠ some '{') :
+    parsePart (pre ++ (l.text ++ ((match sep with | some s => ['{'] ++ s ++ ['}'] | none => [])
+        ++ (post ++ '}' :: rest)))) = some (⟨pre, some l, sep, post⟩, rest) := by
+  -- the text after the letters
+  generalize htail : (match sep with | some s => ['{'] ++ s ++ ['}'] | none => [])
+      ++ (post ++ '}' :: rest) = tail
+  have htail_head : ∀ a r, tail = a :: r → isAlpha a = false := by
+    intro a r h
+    rw [← htail] at h
+    cases sep with
+    | some s => simp at h; rw [← h.1]; decide
+    | none =>
+      cases post with
+      | nil => simp at h; rw [← h.1]; decide
+      | cons c post' =>
+        simp at h
+        rw [← h.1]
+        rcases okText_head hpost with rfl | hv
+        · decide
+        · exact verbChar_not_alpha hv
+  obtain ⟨c, lt, hlt⟩ := List.exists_cons_of_ne_nil (letters_text_ne_nil l)
+  have hc : isAlpha c = true := letters_text_alpha l c (by rw [hlt]; simp)
+  obtain ⟨htw, hdw⟩ := takeWhile_append_stop isAlpha l.text tail (letters_text_alpha l) htail_head
+  unfold parsePart
+  rw [verbatim_okText 0 pre _ hpre]
+  have hstop : verbatim 0 (l.text ++ tail) = ([], l.text ++ tail) := by
+    rw [hlt, List.cons_append]
+    exact verbatim_zero_stop _ (isAlpha_ne_open hc) (isAlpha_not_verb hc)
+  rw [hstop]
+  simp only [List.append_nil]
+  rw [hlt, List.cons_append] at htw hdw ⊢
+  simp only [isAlpha_ne_close hc, if_false, hc, if_true, htw, hdw]
+  rw [← hlt, decodeLetters_text]
+  simp only
+  have hpostv : verbatim 0 (post ++ '}' :: rest) = (post, '}' :: rest) := by
+    rw [verbatim_okText 0 post _ hpost, verbatim_close]; simp
+  cases sep with
+  | some s =>
+    simp only at hsep
+    have htl : tail = '{' :: (s ++ '}' :: (post ++ '}' :: rest)) := by rw [← htail]; simp
+    rw [htl]
+    have hg : group 0 (s ++ '}' :: (post ++ '}' :: rest)) = some (s, post ++ '}' :: rest) := by
+      rw [group_okText 0 s _ hsep]; simp [group]
+    simp only [hg, Option.map_some, hpostv]
+  | none =>
+    simp only at hsep
+    have htl : tail = post ++ '}' :: rest := by rw [← htail]; simp
+    rw [htl]
+    have hno : ∀ x, post ++ '}' :: rest ≠ '{' :: x := by
+      intro x h
+      cases post with
+      | nil => simp at h
+      | cons a post' => simp at h; exact hsep (by simp [h.1])
+    split
+    · rename_i heq
+      split at heq
+      · rename_i x h; exact absurd h (hno x)
+      · cases heq
+    · rename_i sep' s3 heq
+      split at heq
+      · rename_i x h; exact absurd h (hno x)
+      · cases heq
+        simp only [hpostv]
+
+theorem parsePart_render (p : Part) (rest : Str) (h : p.wf = true) :
+    parsePart ((p.render.drop 1) ++ rest) = some (p, rest) := by
+  obtain ⟨pre, letters, sep, post⟩ := p
+  simp only [Part.wf, Bool.and_eq_true, Bool.or_eq_true, decide_eq_true_eq] at h
+  obtain ⟨⟨⟨hpre, hpost⟩, hsep⟩, hl⟩ := h
+  cases letters with
+  | none =>
+    have : sep = none ∧ post = [] := by simpa using hl
+    obtain ⟨rfl, rfl⟩ := this
+    have := parsePart_render_none pre rest hpre
+    simpa [Part.render] using this
+  | some l =>
+    cases sep with
+    | some s =>
+      have := parsePart_render_some pre l (some s) post rest hpre hpost (by simpa using hsep)
+      simpa [Part.render] using this
+    | none =>
+      have := parsePart_render_some pre l none post rest hpre hpost (by simpa using hsep)
+      simpa [Part.render] using this
+
+/-- every format string of the grammar is read back as its shape -/
+theorem parse_render (ps : List Piece) (h : ∀ p ∈ ps, p.wf = true) : parse (render ps) = some ps := by
+  induction ps with
+  | nil => exact parse_nil
+  | cons a r ih =>
+    have ihr := ih (fun p hp => h p (by simp [hp]))
+    cases a with
+    | ch c =>
+      have hc : c ≠ '{' ∧ c ≠ '}' := by simpa [Piece.wf] using h (.ch c) (by simp)
+      rw [render, parse_text _ _ hc.1 hc.2, ihr]; rfl
+    | part p =>
+      have hp : p.wf = true := h (.part p) (by simp)
+      have hr : render (.part p :: r) = '{' :: ((p.render.drop 1) ++ render r) := by
+        simp [render, Part.render]
+      rw [hr, parse_open, parsePart_render p _ hp]
+      simp [ihr]
+
+/-- `format_name` on a format string of the grammar: the rule applied to the shape it was
+rendered from -/
+theorem formatName_render (name : Str) (ps : List Piece) (h : ∀ p ∈ ps, p.wf = true) :
+    formatName name (render ps) =
+      match mkPerson name [] [] [] [] [] with
+      | .error _ => .error .tooDeep
+      | .ok (person, rep) =>
+        match formatPieces person ps with
+        | some s => .ok (s, rep)
+        | none => .error .tooDeep := by
+  have hp := parse_eq (render ps)
+  rw [parse_render ps h] at hp
+  rw [formatName_eq_finish]
+  cases hpf : parseFormat (render ps) with
+  | error e => rw [hpf] at hp; cases hp
+  | ok parts =>
+    rw [hpf] at hp
+    simp only at hp
+    have hok := parseFormat_partOk hpf
+    unfold finishName
+    simp only
+    cases hm : mkPerson name [] [] [] [] [] with
+    | error e => have := (mkPerson_error hm).1; subst this; rfl
+    | ok pr =>
+      obtain ⟨person, rep⟩ := pr
+      simp only [formatParts_eq person hok hp.symm]
+      cases formatPieces person ps <;> rfl
+
 end NameFormat
 end Pybtex
